@@ -75,7 +75,7 @@ def side(spec):
         return {"ctor": e}
     T = b.trials_per_sample()
     s, es, ss = D.exhaust(spec, "IterateSATGen", CAP, 60)
-    r, er, sr = D.exhaust(spec, "RandomGen", CAP, 20)
+    r, er, sr = D.exhaust(spec, "RandomGen", CAP, 10)
     return {"ctor": None, "T": T,
             "sat": (set(O.seq_key(x) for x in s) if ss == "ok" and not es else None), "sat_status": ss if not es else "raised:" + es["exc"],
             "rnd": (set(O.seq_key(x) for x in r) if sr == "ok" and not er else None), "rnd_status": sr if not er else "raised:" + er["exc"]}
